@@ -22,6 +22,7 @@ fn k_covers_v4() {
     kani::cover!(a.covers(b) && a.addr_len() > 0 && a.addr_len() < b.addr_len());
     kani::cover!(!a.covers(b) && a.addr_len() < b.addr_len());
 }
+
 #[kani::proof]
 fn k_covers_v6() {
     let a = any_v6();
@@ -30,6 +31,7 @@ fn k_covers_v6() {
     kani::cover!(a.covers(b) && a.addr_len() > 0 && a.addr_len() < b.addr_len());
     kani::cover!(!a.covers(b) && a.addr_len() < b.addr_len());
 }
+
 #[kani::proof]
 fn k_covers_v6_agrees_with_typed() {
     let a = any_v6();
@@ -62,6 +64,42 @@ fn k_closest_ancestor_v6() {
     if c.addr_len() < a.addr_len() && c.addr_len() < b.addr_len() {
         assert!(a.bit(c.addr_len()) != b.bit(c.addr_len()));
     }
+}
+// ---- the prefix algebra that the V unit c17_categorise ASSUMES of every RoutePrefix implementation (full domain, loop-free) ----
+#[kani::proof]
+fn k_covers_algebra_v4() {
+    let a = any_v4(); let b = any_v4(); let c = any_v4();
+    assert!(a.covers(a));                                            // reflexive
+    if a.covers(b) && b.covers(c) { assert!(a.covers(c)); }          // transitive
+    if a.covers(b) { assert!(a.addr_len() <= b.addr_len()); }        // covering prefix is not longer
+    kani::cover!(a.covers(b) && b.covers(c) && a.addr_len() < b.addr_len() && b.addr_len() < c.addr_len());
+}
+#[kani::proof]
+fn k_covers_algebra_v6() {
+    let a = any_v6(); let b = any_v6(); let c = any_v6();
+    assert!(a.covers(a));
+    if a.covers(b) && b.covers(c) { assert!(a.covers(c)); }
+    if a.covers(b) { assert!(a.addr_len() <= b.addr_len()); }
+    kani::cover!(a.covers(b) && b.covers(c) && a.addr_len() < b.addr_len() && b.addr_len() < c.addr_len());
+}
+// sub-prefix existence: for every length l between len(p) and the family maximum there is a prefix of length l under p
+#[kani::proof]
+fn k_subprefix_v4() {
+    let p = any_v4();
+    let l: u8 = kani::any();
+    kani::assume(p.addr_len() <= l && l <= 32);
+    let s = crate::api::roa::vx_kani_k_api_roa::mk_v4(p.addr().to_bits(), l);
+    assert!(p.covers(s) && s.addr_len() == l);
+    assert!(l == 32 || s.addr().to_bits() & (u32::MAX >> l) == 0);   // the witness is a well-formed prefix
+}
+#[kani::proof]
+fn k_subprefix_v6() {
+    let p = any_v6();
+    let l: u8 = kani::any();
+    kani::assume(p.addr_len() <= l && l <= 128);
+    let s = crate::api::roa::vx_kani_k_api_roa::mk_v6(p.addr().to_bits(), l);
+    assert!(p.covers(s) && s.addr_len() == l);
+    assert!(l == 128 || s.addr().to_bits() & (u128::MAX >> l) == 0);
 }
 // bit(i) is the i-th bit from the left; out of range is false; never panics
 #[kani::proof]
